@@ -331,6 +331,16 @@ func collectShared(pkgName string, p *pkgInfo, t *sharedTab) {
 				case *ast.IncDecStmt:
 					written(v.X)
 				case *ast.CallExpr:
+					// delete(m, k), clear(x), copy(x, …) and the in-place sorts change the object their first argument holds
+					if f, ok := v.Fun.(*ast.Ident); ok && len(v.Args) > 0 && (f.Name == "delete" || f.Name == "clear" || f.Name == "copy") {
+						written(v.Args[0])
+					}
+					if sel, ok := v.Fun.(*ast.SelectorExpr); ok && len(v.Args) > 0 {
+						if x, ok := sel.X.(*ast.Ident); ok && (x.Name == "sort" || x.Name == "slices") && !locals[x.Name] &&
+							(strings.HasPrefix(sel.Sel.Name, "Sort") || sel.Sel.Name == "Strings" || sel.Sel.Name == "Ints" || sel.Sel.Name == "Slice" || sel.Sel.Name == "SliceStable" || sel.Sel.Name == "Stable" || sel.Sel.Name == "Reverse") {
+							written(v.Args[0])
+						}
+					}
 					if sel, ok := v.Fun.(*ast.SelectorExpr); ok {
 						if x, ok := sel.X.(*ast.Ident); ok {
 							full := x.Name + "." + sel.Sel.Name
@@ -432,6 +442,7 @@ func collectPkgObjects(pkgName string, p *pkgInfo) [][3]string {
 			}
 		}
 	}
+	sort.SliceStable(out, func(i, j int) bool { return out[i][1] < out[j][1] })
 	return out
 }
 
